@@ -6,7 +6,7 @@ from ..lib import coqrun
 
 PROP = "C12"
 COQ_IMPORTS = ["Dedup"]
-COQ_FN = "Dedup.run_case"
+COQ_FN = "Dedup.run_case_sel"
 IMPL = "c12_impl.py"
 SHARD = 40
 RULE = ("conductor op lists (Call / Dirty from outside any running body, on the main or a second thread; Go = hand the created "
@@ -19,7 +19,11 @@ RULE = ("conductor op lists (Call / Dirty from outside any running body, on the 
         ".asynq()/dirty() issued from inside the running body, return or raise); ~60% of calls hit one hot key in random "
         "positional/keyword/default spellings; 12% of call spellings are ill-formed (missing, surplus, duplicated, unexpected "
         "arguments); distinct = different (scripts, ops); non-trivial = two well-formed calls that bind the same arguments of the "
-        "same callable on the same thread while some body has a gate or no Go separates them")
+        "same callable on the same thread while some body has a gate or no Go separates them; plus the fan-out family (scale): "
+        "OFan / BFan = [fn.asynq(i) for i in range(lo, lo+n)] from the conductor or from inside a running body, n in {50, 300, 1100, 2500} "
+        "(thorough: also 4000) distinct keys registered at the same time, around 1-3 early keys (created before the fan-out, some started and "
+        "gated) that are requested again in random spellings while everything is in flight / after the fan-out completed / after dirty() of "
+        "the early key or of fan-out keys / by a second overlapping fan-out")
 TRUSTED = ["the harness conductor (lane batches, get_priority steering, awaiter/collector tasks) and the scheduler that runs them "
            "are exercised, not modelled: the model only fixes the order in which dedup-level actions happen",
            "inspect.signature().bind is the reference for 'binds the same arguments' on the implementation side"]
@@ -166,9 +170,122 @@ def gen_case(rng, tier):
     return {"args": [scripts, ops], "tree": [scripts, ops], "meta": {"hot_fn": hot_fn, "gens": gens or [0]}}
 
 
+FAN_FNS = [0, 0, 1, 3, 4, 5, 6]          # callables with one required parameter `a` (f2 needs two: TypeError, used rarely)
+
+
+def _fan(th, fn, gen, inst, sp, lo, n):
+    return {"OFan": [th, fn, gen, inst, sp, lo, n]}
+
+
+def gen_fan_case(rng, tier, size):
+    """Scale: `size` distinct keys registered at once around a few early keys that are requested again."""
+    gens = [0] + (rng.choice([[1], [2]]) if rng.random() < 0.3 else [])
+    ffn = rng.choice(FAN_FNS) if rng.random() < 0.93 else 2
+    fgen = rng.choice(gens)
+    fth = 1 if rng.random() < 0.1 else 0
+    finst = rng.randrange(2)
+    fsp = rng.choice([0, 0, 1])
+    lo = rng.choice([0, 2, 100, 1000])
+    # early keys: same callable as the fan-out (inside or outside its range) or another one
+    early = []
+    for _ in range(rng.choice([1, 1, 2, 3])):
+        r = rng.random()
+        if r < 0.45:
+            efn, egen, einst, eth = ffn, fgen, finst, fth
+            a = rng.choice([lo - 1, lo + size + 5, lo + rng.randrange(size), lo, lo + size - 1])
+            if a < 0:
+                a = lo + size
+        elif r < 0.6:
+            efn, egen, einst, eth, a = ffn, rng.choice(gens), 1 - finst, 0, lo + rng.randrange(size)
+        else:
+            efn, egen, einst, eth, a = rng.choice([0, 1, 2, 3, 4, 5, 6]), rng.choice(gens), rng.randrange(2), (1 if rng.random() < 0.1 else 0), rng.choice([1, 2, lo + 1])
+        vals = [a] + [d if d is not None else 2 for _, d in _PARAMS[efn][1:]]
+        early.append((efn, egen, einst, eth, vals))
+
+    def ecall(e, malformed=False):
+        efn, egen, einst, eth, vals = e
+        pos, kw = _spell(rng, efn, vals, None, [] if efn == 6 else None, 0 if efn == 6 else None)
+        return {"OCall": [eth, efn, egen, einst, pos, kw]}
+
+    def edirty(e):
+        o = ecall(e)
+        return {"ODirty": o["OCall"]}
+
+    def fankey_call(j, dirty=False):
+        pos, kw = _spell(rng, ffn, [lo + j] + [d if d is not None else 2 for _, d in _PARAMS[ffn][1:]], None, [] if ffn == 6 else None, 0 if ffn == 6 else None)
+        return {("ODirty" if dirty else "OCall"): [fth, ffn, fgen, finst, pos, kw]}
+
+    fan_in_body = rng.random() < 0.2
+    nscripts = rng.choice([1, 2, 3])
+    scripts = []
+    for i in range(nscripts):
+        steps = ["BGate"] * rng.choice([1, 1, 2])
+        if i == 0 and fan_in_body:
+            steps = [{"BFan": [ffn, fgen, finst, fsp, lo, size]}] + steps
+            if rng.random() < 0.5:
+                steps = ["BGate"] + steps
+        fin = {"Ret": [rng.randrange(10, 60)]} if rng.random() < 0.85 else {"Raise": [rng.randrange(100, 160)]}
+        scripts.append({"": [steps, fin]})
+    ops = [ecall(e) for e in early]
+    started = rng.random() < 0.6 or fan_in_body
+    if started:
+        ops.append("OGo")                      # the early bodies start and block on their gates
+        if fan_in_body and scripts[0][""][0][0] == "BGate":
+            ops.append({"OFlush": [{"n": 0}]})
+    if not fan_in_body:
+        ops.append(_fan(fth, ffn, fgen, finst, fsp, lo, size))
+    phase = rng.choice(["inflight", "inflight", "completed", "dirty-early", "dirty-fan", "refan"])
+    if phase == "completed":
+        ops.append("OGo")                      # the fan-out bodies run to completion, the early ones stay gated
+    elif phase == "dirty-early":
+        ops.append(edirty(rng.choice(early)))
+    elif phase == "dirty-fan":
+        for _ in range(rng.choice([1, 2, 5])):
+            ops.append(fankey_call(rng.randrange(size), dirty=True))
+    elif phase == "refan":
+        n2 = min(size, rng.choice([50, 300, size]))
+        lo2 = lo + rng.choice([0, 0, size // 2, size - n2 // 2])
+        if rng.random() < 0.3:
+            ops.append("OGo")
+        ops.append(_fan(fth, ffn, fgen, finst, rng.choice([fsp, 1 - fsp]), lo2, n2 if size <= 1100 else min(n2, 300)))
+    # the early keys again, and some fan-out keys again
+    for _ in range(rng.choice([1, 2, 3])):
+        r = rng.random()
+        if r < 0.7:
+            ops.append(ecall(rng.choice(early)))
+        else:
+            ops.append(fankey_call(rng.choice([0, size - 1, rng.randrange(size)])))
+    for _ in range(rng.choice([0, 1, 2, 3])):
+        r = rng.random()
+        if r < 0.35:
+            ops.append("OGo")
+        elif r < 0.6:
+            ops.append({"OFlush": [{"n": rng.randrange(0, nscripts)}]})
+        elif r < 0.85:
+            ops.append(ecall(rng.choice(early)))
+        else:
+            ops.append(edirty(rng.choice(early)))
+    return {"args": [scripts, ops], "tree": [scripts, ops], "meta": {"fan": size, "phase": phase, "fan_in_body": fan_in_body, "gens": gens}}
+
+
+FAN_SIZES = {"quick": [2500] * 1 + [1100] * 5 + [300] * 12 + [50] * 18,
+             "thorough": [4000] * 3 + [2500] * 12 + [1100] * 45 + [300] * 110 + [50] * 180}
+
+
 def gen_cases(rng, tier):
     n = 700 if tier == "quick" else 9000
-    return [gen_case(rng, tier) for _ in range(n)]
+    cases = [gen_case(rng, tier) for _ in range(n)]
+    # the fan-out family, spread over the whole list: the model is evaluated in contiguous shards of SHARD cases (one coqc
+    # each, in parallel), so the heavy cases (heaviest first in FAN_SIZES) go round-robin into different shards, not the
+    # first one (which holds the corpus)
+    sizes = FAN_SIZES["quick" if tier == "quick" else "thorough"]
+    fans = [gen_fan_case(rng, tier, sz) for sz in sizes]
+    ncorpus = len(CORPUS)
+    nshards = max(2, (ncorpus + n + len(fans) + SHARD - 1) // SHARD)
+    where = sorted(((1 + j % (nshards - 1)) * SHARD + 1 + j // (nshards - 1) - ncorpus, j) for j in range(len(fans)))
+    for pos, j in where:                                          # ascending: the positions are final positions
+        cases.insert(max(0, min(len(cases), pos)), fans[j])
+    return cases
 
 
 # ------------------------------------------------------------------ corpus
@@ -226,11 +343,27 @@ CORPUS = [
     # a call of the other generation from inside the running body (not the escape hatch: another function object), and its dirty()
     _mk([_s([{"BCall": [2, 2, 0, [A(1), A(2)], []]}, G, {"BDirty": [2, 2, 0, [A(1), A(2)], []]}, G], ("Ret", 20)), _s([G], ("Ret", 21))],
         [_c(2, [1, 2]), "OGo", _c(2, [1], [(2, 2)]), _c(2, [1, 2, 5], gen=2), "OGo", _f(0), _c(2, [1, 2]), _c(2, [1, 2], gen=2), "OGo"]),
+    # scale: one key, then 1100 other keys of another function registered in the same step, then the first key again
+    _mk([_s([G], ("Ret", 10))], [_c(0, [1]), _fan(0, 1, 0, 0, 0, 0, 1100), _c(0, [], [(1, 1)]), "OGo"]),
+    # the first key's body is blocked on its gate; a fan-out over 1100 keys of the SAME function is created, runs and completes;
+    # a later step asks for the first key again (shared), for a completed fan-out key (new task) and for the first key once more
+    _mk([_s([G], ("Ret", 10))], [_c(0, [7]), "OGo", _fan(0, 0, 0, 0, 0, 100, 1100), "OGo", _c(0, [7, 0]), _c(0, [100]), _c(0, [], [(1, 7)]), "OGo"]),
+    # the fan-out is issued from inside a running body (`yield [g.asynq(i) for i in ids]`), 300 keys of the static method;
+    # dirty() of a fan-out key, then the early key again, the dirtied key again, the early key dirtied and requested again
+    _mk([_s([{"BFan": [5, 0, 0, 1, 0, 300]}, G], ("Ret", 10)), _s([G], ("Ret", 11))],
+        [_c(4, [1]), _c(0, [3]), "OGo", _d(5, [5]), _c(0, [3], [(2, 0)]), _c(5, [5]), _d(0, [3]), _c(0, [3]), "OGo"]),
 ]
 
 
+def _has_fan(c):
+    scripts, ops = c["args"]
+    return (any(isinstance(o, dict) and "OFan" in o for o in ops) or
+            any(isinstance(x, dict) and "BFan" in x for s_ in scripts for x in s_[""][0]))
+
+
 def model_input(c):
-    return " ".join(coqrun.coq_of(a) for a in c["args"])
+    # fan-out cases: only the fully repaired code and the code as written are evaluated (Dedup.run_case_sel)
+    return ("(1)%Z " if _has_fan(c) else "(0)%Z ") + " ".join(coqrun.coq_of(a) for a in c["args"])
 
 
 def canon(c):
@@ -263,13 +396,19 @@ def nontrivial(c):
     for o in ops:
         if o == "OGo":
             go += 1
-        elif isinstance(o, dict) and "OCall" in o:
-            k = _refkey(*o["OCall"])
-            if k is None:
-                continue
-            if k in seen and (gates or seen[k] == go):
-                return True
-            seen.setdefault(k, go)
+        elif isinstance(o, dict) and ("OCall" in o or "OFan" in o):
+            if "OFan" in o:
+                th, fn, gen, inst, sp, lo, n = o["OFan"]
+                calls = [[th, fn, gen, inst] + ([[], [{"": [1, A(i)]}]] if sp == 1 else [[A(i)], []]) for i in range(lo, lo + n)]
+            else:
+                calls = [o["OCall"]]
+            for cl in calls:
+                k = _refkey(*cl)
+                if k is None:
+                    continue
+                if k in seen and (gates or seen[k] == go):
+                    return True
+                seen.setdefault(k, go)
     return False
 
 
@@ -291,9 +430,20 @@ def compare(c, m, io):
 def distribution(cases):
     d = {"ops": {}, "oplen": {}, "hot_fn": {}, "scripts_with_gates": 0, "inner_calls": 0, "inner_dirty": 0, "malformed_calls": 0,
          "other_thread_calls": 0, "calls": 0, "generations_in_use": {}, "calls_by_generation": {},
-         "cases_with_same_named_functions_called_with_equal_arguments": 0}
+         "cases_with_same_named_functions_called_with_equal_arguments": 0,
+         "fan_out_cases_by_keys_registered_at_once": {}, "fan_out_phase": {}, "fan_out_from_inside_a_body": 0, "fan_out_calls": 0}
     for c in cases:
         scripts, ops = c["args"]
+        fans = [o["OFan"][6] for o in ops if isinstance(o, dict) and "OFan" in o] + [
+            x["BFan"][5] for s_ in scripts for x in s_[""][0] if isinstance(x, dict) and "BFan" in x]
+        if fans:
+            b = str(max(fans))
+            d["fan_out_cases_by_keys_registered_at_once"][b] = d["fan_out_cases_by_keys_registered_at_once"].get(b, 0) + 1
+            ph = str(c.get("meta", {}).get("phase", "corpus"))
+            d["fan_out_phase"][ph] = d["fan_out_phase"].get(ph, 0) + 1
+            d["fan_out_calls"] += sum(fans)
+            if any(isinstance(x, dict) and "BFan" in x for s_ in scripts for x in s_[""][0]):
+                d["fan_out_from_inside_a_body"] += 1
         L = len(ops)
         b = "0-3" if L <= 3 else "4-8" if L <= 8 else "9-16" if L <= 16 else "17-30"
         d["oplen"][b] = d["oplen"].get(b, 0) + 1
@@ -345,13 +495,89 @@ def _shape(d):
     return "%dp+%s" % (d["npos"], ",".join(d["kws"]))
 
 
+class _I(object):
+    def __init__(self, g, i):
+        self.g, self.i = g, i
+
+
+def _tv(v):
+    return "ANone" if v is None else {"AInst": [v.g, v.i]} if isinstance(v, _I) else {"AInt": [v]}
+
+
+def _bound_tree(fn, gen, inst, pos, kw):
+    """inspect.signature().bind of a fan-out call, in the form the runner reports for ordinary calls"""
+    args = list(pos)
+    if fn == 4:
+        args = [_I(gen % NGEN, inst % 2)] + args
+    sig = _SIGS[fn]
+    try:
+        b = sig.bind(*args, **{NAMES[k]: v for k, v in kw})
+    except TypeError:
+        return "None"
+    b.apply_defaults()
+    named, rest, extra = [], [], []
+    for name, p in sig.parameters.items():
+        v = b.arguments[name]
+        if p.kind == p.VAR_POSITIONAL:
+            rest = [_tv(x) for x in v]
+        elif p.kind == p.VAR_KEYWORD:
+            extra = [{"": [{v2: k2 for k2, v2 in NAMES.items()}[n], _tv(x)]} for n, x in sorted(v.items())]
+        else:
+            named.append(_tv(v))
+    return {"Some": [{"": [named, rest, extra]}]}
+
+
+class _InFlight(object):
+    """tasks observed not computed when the call was issued: ranges [lo, hi) of task ids; `since` = first id of the tasks
+    created by earlier calls of the same fan-out (nothing runs during a fan-out)"""
+
+    def __init__(self, rs, since=None):
+        self.rs, self.since = rs, since
+
+    def __contains__(self, t):
+        if self.since is not None and t >= self.since:
+            return True
+        lo, hi = 0, len(self.rs)
+        while lo < hi:
+            mid = (lo + hi) // 2
+            if self.rs[mid][1] <= t:
+                lo = mid + 1
+            else:
+                hi = mid
+        return lo < len(self.rs) and self.rs[lo][0] <= t < self.rs[lo][1]
+
+
+def _fan_calls(f):
+    """the calls of a fan-out as ordinary call records"""
+    infl = _InFlight(f["inflight"], f["known"])
+    i = 0
+    for tid0, cnt, new in f["segs"]:
+        for j in range(cnt):
+            v = f["lo"] + i
+            pos, kw = ([], [(1, v)]) if f["sp"] == 1 else ([v], [])
+            yield dict(cid=f["cid0"] + i, ctx=f["ctx"], thread=f["thread"], fn=f["fn"], gen=f["gen"], inst=f["inst"], kind=f["kind"],
+                       npos=len(pos), kws=["a"] if kw else [], bound=_bound_tree(f["fn"], f["gen"], f["inst"], pos, kw),
+                       tid=None if tid0 is None else tid0 + j, new=bool(new), inflight=infl, running=f["running"], fan=True)
+            i += 1
+
+
+def _scale(n):
+    """how many keys the statement says are in flight, as a site component"""
+    for b in (4096, 1024, 256, 64):
+        if n >= b:
+            return "%d+" % b
+    return None
+
+
 def monitors(c, io, build):
     if "out" not in io:
         return [dict(clause="terminates", site="run:%s" % next(iter(io)), msg="the case did not run to completion: %s" % next(iter(io)))]
     fs = []
     trace, got, left = io["out"][""]
-    got = {g[""][0]: g[""][1] for g in got}
+    got = {g[""][0] + j: g[""][2] for g in got for j in range(g[""][1])}
     cur = {}            # key -> the task the statement says is in flight for it
+    cur_named = {}      # name of the key -> keys in cur
+    made_key = {}       # tid -> the key it was created for
     creator = {}        # tid -> call record that created it
     made_for = {}       # key -> tasks created for it by calls that had to run the body
     stale = {}          # key -> an older task of the key completed after cur[key] was created
@@ -366,10 +592,26 @@ def monitors(c, io, build):
     aliased = set()     # keys such that dirty() / a completion happened for a same-named function object with equal arguments
 
     def alias(k):
-        for k2 in cur:
-            if k2 != k and name_of.get(k2) == name_of.get(k):
+        for k2 in cur_named.get(name_of.get(k), ()):
+            if k2 != k:
                 aliased.add(k2)
-    for ev in io["seq"]:
+
+    def uncur(k):
+        if k in cur:
+            del cur[k]
+            cur_named.get(name_of.get(k), set()).discard(k)
+
+    def events():
+        for ev in io["seq"]:
+            if ev[0] == "fan":
+                for d in _fan_calls(ev[1]):
+                    yield ("call", d)
+            else:
+                if ev[0] == "call":
+                    yield ("call", dict(ev[1], inflight=_InFlight(ev[1]["inflight"])))    # (the runner's output is not modified)
+                else:
+                    yield ev
+    for ev in events():
         what = ev[0]
         if what == "call":
             d = ev[1]
@@ -406,6 +648,8 @@ def monitors(c, io, build):
                         site = "%s-while-in-flight:%s:same-named-function-dirtied-or-completed" % ("new-task" if d["new"] else "other-task", d["kind"])
                     elif (d["thread"], d["fn"], d["gen"]) in star_used:
                         site = "not-shared-while-in-flight:callable-used-with-surplus-positional-arguments"
+                    elif _scale(len(cur)):       # scale: the key's task is one of many in flight
+                        site = "%s-while-in-flight:%s:%s-keys-in-flight" % ("new-task" if d["new"] else "other-task", d["kind"], _scale(len(cur)))
                     else:
                         site = "%s-while-in-flight:%s:%s-spelling" % ("new-task" if d["new"] else "other-task", d["kind"],
                                                                     "same" if _shape(d) == _shape(creator[t]) else "other")
@@ -426,8 +670,10 @@ def monitors(c, io, build):
                     tainted.add(k)
                 else:
                     cur[k] = d["tid"]
+                    cur_named.setdefault(name_of[k], set()).add(k)
                     creator[d["tid"]] = d
                     made_for.setdefault(k, []).append(d["tid"])
+                    made_key[d["tid"]] = k
                     stale[k] = False
                     aliased.discard(k)
         elif what == "dirty":
@@ -443,17 +689,18 @@ def monitors(c, io, build):
                 star_used.add((d["thread"], d["fn"], d["gen"]))
             name_of[k] = _NK(d)
             alias(k)
-            cur.pop(k, None)
+            uncur(k)
         elif what == "start":
             starts[ev[2]] = starts.get(ev[2], 0) + 1
         elif what == "done":
             tid = ev[2]
             done[tid] = ev[3]
-            for k in [k for k, t in cur.items() if t == tid]:
-                alias(k)
-                del cur[k]
-            for k, ts in made_for.items():
-                if tid in ts and cur.get(k) not in (None, tid):
+            k = made_key.get(tid)            # a task is in `cur` only under the key it was created for
+            if k is not None:
+                if cur.get(k) == tid:
+                    alias(k)
+                    uncur(k)
+                elif cur.get(k) is not None:
                     stale[k] = True
     # different keys, functions, instances, threads never share a task
     for tid, ks in sorted(task_keys.items()):
@@ -514,6 +761,22 @@ def shrink(c):
             yield mk(scripts[:i] + [{"": [steps[:j] + steps[j + 1:], fin]}] + scripts[i + 1:], ops)
     if scripts:
         yield mk(scripts[:-1], ops)
+    for i, o in enumerate(ops):                  # fewer keys in the fan-out: biggest reduction first
+        if isinstance(o, dict) and "OFan" in o:
+            a = o["OFan"]
+            step = a[6] // 2
+            while step >= 1:
+                yield mk(scripts, ops[:i] + [{"OFan": a[:6] + [a[6] - step]}] + ops[i + 1:])
+                step //= 2
+    for i, s in enumerate(scripts):
+        steps, fin = s[""]
+        for j, x in enumerate(steps):
+            if isinstance(x, dict) and "BFan" in x:
+                a = x["BFan"]
+                step = a[5] // 2
+                while step >= 1:
+                    yield mk(scripts[:i] + [{"": [steps[:j] + [{"BFan": a[:5] + [a[5] - step]}] + steps[j + 1:], fin]}] + scripts[i + 1:], ops)
+                    step //= 2
     for i, o in enumerate(ops):
         if isinstance(o, dict) and ("OCall" in o or "ODirty" in o):
             nm = next(iter(o))
